@@ -109,8 +109,130 @@ class _Block:
         self.body = found[0].body
 
 
+# --------------------------------------------------------------------------- helpers written out
+#
+# Before a method is translated, calls to small helpers are written out in place, so that a refactor
+# which moves an expression into a helper is *retranslated* (and the theorems re-checked against it)
+# instead of degrading:
+#   * a module-level function / a method of the same class whose body is `return <expression>`
+#     (after an optional docstring), undecorated, with plain positional parameters: the call is
+#     replaced by the expression with the arguments substituted.  A *decorated* helper is left alone
+#     (a decorator may do anything -- cache, retry, log): the call then is outside the translated
+#     subset and the item degrades;
+#   * a local name assigned once from an attribute of `self` and never assigned again is replaced by
+#     the attribute (`binding = self.binding`);
+#   * `f(*tuple(x))` / `f(*list(x))` is `f(*x)`.
+
+
+def _single_return(fd):
+    body = [st for st in fd.body if not (isinstance(st, ast.Expr) and isinstance(st.value, ast.Constant) and isinstance(st.value.value, str))]
+    if len(body) == 1 and isinstance(body[0], ast.Return) and body[0].value is not None:
+        return body[0].value
+    return None
+
+
+def _plain_params(fd, method):
+    a = fd.args
+    if fd.decorator_list or a.vararg or a.kwarg or a.kwonlyargs or a.posonlyargs or a.defaults or isinstance(fd, ast.AsyncFunctionDef):
+        return None
+    names = [x.arg for x in a.args]
+    if method:
+        if not names or names[0] != "self":
+            return None
+        names = names[1:]
+    return names
+
+
+class _Subst(ast.NodeTransformer):
+    def __init__(self, mapping):
+        self.mapping = mapping
+
+    def visit_Name(self, n):
+        if isinstance(n.ctx, ast.Load) and n.id in self.mapping:
+            return ast.parse(ast.unparse(self.mapping[n.id]), mode="eval").body
+        return n
+
+
+class _Inline(ast.NodeTransformer):
+    def __init__(self, module, cls, depth=0):
+        self.funcs = {n.name: n for n in module.body if isinstance(n, ast.FunctionDef)} if module is not None else {}
+        self.methods = {n.name: n for n in cls.body if isinstance(n, ast.FunctionDef)} if cls is not None else {}
+        self.module, self.cls, self.depth = module, cls, depth
+        self.written_out = []
+
+    def visit_Call(self, n):
+        self.generic_visit(n)
+        # f(*tuple(x)) -> f(*x)
+        for i, a in enumerate(n.args):
+            if isinstance(a, ast.Starred) and isinstance(a.value, ast.Call) and isinstance(a.value.func, ast.Name) \
+                    and a.value.func.id in ("tuple", "list") and len(a.value.args) == 1 and not a.value.keywords:
+                n.args[i] = ast.Starred(value=a.value.args[0], ctx=ast.Load())
+        fd, method = None, False
+        if isinstance(n.func, ast.Name) and n.func.id in self.funcs:
+            fd = self.funcs[n.func.id]
+        elif isinstance(n.func, ast.Attribute) and isinstance(n.func.value, ast.Name) and n.func.value.id == "self" \
+                and n.func.attr in self.methods:
+            fd, method = self.methods[n.func.attr], True
+        if fd is None or self.depth >= 3:
+            return n
+        params = _plain_params(fd, method)
+        ret = _single_return(fd)
+        if params is None or ret is None or any(isinstance(a, ast.Starred) for a in n.args) or any(k.arg is None for k in n.keywords):
+            return n
+        if len(n.args) > len(params):
+            return n
+        mapping = dict(zip(params, n.args))
+        for k in n.keywords:
+            if k.arg not in params or k.arg in mapping:
+                return n
+            mapping[k.arg] = k.value
+        if set(mapping) != set(params):
+            return n
+        # the helper's own locals are its parameters only (single return expression); comprehension /
+        # lambda binders inside it could capture: leave such helpers alone
+        if any(isinstance(x, (ast.Lambda, ast.ListComp, ast.SetComp, ast.DictComp, ast.GeneratorExp, ast.NamedExpr)) for x in ast.walk(ret)):
+            return n
+        body = _Subst(mapping).visit(ast.parse(ast.unparse(ret), mode="eval").body)
+        body = _Inline(self.module, self.cls, self.depth + 1).visit(body)
+        self.written_out.append(fd.name)
+        return body
+
+
+def _propagate_self_aliases(fn):
+    """`x = self.attr` (assigned once, `self.attr` not assigned in the function) -> uses of `x` read `self.attr`."""
+    counts, alias = {}, {}
+    for name in pystmt.assigned(fn.body):
+        counts[name] = 0
+    for n in ast.walk(fn):
+        if isinstance(n, (ast.Assign, ast.AugAssign, ast.AnnAssign, ast.For, ast.With, ast.NamedExpr)):
+            for nm in pystmt.assigned([n]) if not isinstance(n, (ast.AnnAssign, ast.With, ast.NamedExpr)) else ["<other>"]:
+                counts[nm] = counts.get(nm, 0) + 1
+    if "<other>" in counts:
+        return fn
+    for st in fn.body:
+        if isinstance(st, ast.Assign) and len(st.targets) == 1 and isinstance(st.targets[0], ast.Name) \
+                and isinstance(st.value, ast.Attribute) and isinstance(st.value.value, ast.Name) and st.value.value.id == "self" \
+                and counts.get(st.targets[0].id) == 1 and counts.get("self." + st.value.attr, 0) == 0:
+            alias[st.targets[0].id] = st.value
+    if not alias:
+        return fn
+    fn.body = [st for st in fn.body if not (isinstance(st, ast.Assign) and len(st.targets) == 1 and isinstance(st.targets[0], ast.Name)
+                                            and st.targets[0].id in alias)]
+    return _Subst(alias).visit(fn)
+
+
+def written_out(src, fn_name, cls_name):
+    """A copy of the method with helper calls written out in place (see above)."""
+    fn = src.func(fn_name, cls_name)
+    fn = ast.parse(ast.unparse(fn)).body[0]  # a private copy
+    cls = next((n for n in src.tree.body if isinstance(n, ast.ClassDef) and n.name == cls_name), None)
+    fn = _propagate_self_aliases(fn)
+    fn = _Inline(src.tree, cls).visit(fn)
+    return ast.fix_missing_locations(fn)
+
+
 def source_of(src, where):
-    fn = src.func(where[0], where[1])
+    fn = written_out(src, where[0], where[1])
     return fn if len(where) == 2 else _Block(fn, where[2])
 
 
@@ -133,6 +255,35 @@ def class_length_default(src, cls):
                     raise KeyError("%s.length default %r" % (cls, v))
             return None  # inherited from FlatColumn: None
     raise KeyError("class " + cls)
+
+
+def function_configuration_arity(src):
+    """Number of arguments in the default `configuration` of FunctionColumn (`field(default_factory=tuple)`,
+    `()`, `tuple()` -> 0; a literal tuple -> its length)."""
+    if src.tree is None:
+        raise KeyError("orso/schema.py does not parse")
+    for n in src.tree.body:
+        if isinstance(n, ast.ClassDef) and n.name == "FunctionColumn":
+            for st in n.body:
+                if isinstance(st, ast.AnnAssign) and isinstance(st.target, ast.Name) and st.target.id == "configuration":
+                    v = st.value
+                    if v is None:
+                        raise KeyError("FunctionColumn.configuration has no default")
+                    if isinstance(v, ast.Call) and ast.unparse(v.func) in ("field", "dataclasses.field") and not v.args:
+                        kws = {k.arg: k.value for k in v.keywords}
+                        if set(kws) == {"default_factory"} and ast.unparse(kws["default_factory"]) in ("tuple", "list"):
+                            return 0
+                        if set(kws) == {"default"}:
+                            v = kws["default"]
+                        else:
+                            raise KeyError("FunctionColumn.configuration = " + ast.unparse(st.value)[:40])
+                    if isinstance(v, ast.Call) and ast.unparse(v.func) in ("tuple", "list") and not v.args and not v.keywords:
+                        return 0
+                    if isinstance(v, ast.Tuple):
+                        return len(v.elts)
+                    raise KeyError("FunctionColumn.configuration = " + ast.unparse(v)[:40])
+            raise KeyError("FunctionColumn.configuration")
+    raise KeyError("class FunctionColumn")
 
 
 # --------------------------------------------------------------------------- the dtype decision
@@ -380,6 +531,9 @@ def generate(o):
         for cls, nm in (("ConstantColumn", "constLengthDefault"), ("FunctionColumn", "functionLengthDefault")):
             text += "/-- `length: int = ...` of %s: what the shared constructor assigns when the keyword is absent -/\n" % cls
             text += "def %s : Option Nat := %s\n\n" % (nm, "some %d" % ld[cls] if isinstance(ld[cls], int) else "none")
+        text += "/-- the default `configuration` of FunctionColumn: how many arguments the binding of a column declared\n"
+        text += "without one is called with (`field(default_factory=tuple)`: none) -/\n"
+        text += "def functionConfigurationArity : Nat := %d\n\n" % (fa if isinstance(fa, int) and fa >= 0 else 0)
         text += "end Gen.Encodings\n"
         return text
 
@@ -389,6 +543,7 @@ def generate(o):
                                  PINNED.get(key, ""))
     ld = {cls: o.item("schema.length_default." + cls, (lambda cls=cls: class_length_default(src, cls)), 1)
           for cls in ("ConstantColumn", "FunctionColumn")}
+    fa = o.item("schema.function_configuration_arity", lambda: function_configuration_arity(src), 0)
     dd = o.item("schema.lean.sparseResultDType", lambda: dtype_decision(src.func("materialize", "SparseColumn")),
                 PINNED["sparseResultDType"])
     text = assemble(translated, dd)
